@@ -620,3 +620,92 @@ Proof.
     + destruct IH as [b [a [E1 [E2 E3]]]]. exists (o :: b), a. subst r. split; [reflexivity|]. split; [exact E2|]. constructor; assumption.
     + constructor; assumption.
 Qed.
+
+(* ------------------------------------------------------------------ all files together *)
+Lemma find_file_nodup : forall cm f, NoDup (map f_name cm) -> In f cm -> find_file cm (f_name f) = Ok f.
+Proof.
+  induction cm as [|g r IH]; intros f N H; [contradiction|]. cbn [find_file]. cbn [map] in N. inversion N as [|? ? Hn Nr]; subst.
+  destruct H as [H|H].
+  - subst g. rewrite N.eqb_refl. reflexivity.
+  - destruct (N.eqb (f_name g) (f_name f)) eqn:E; [|apply IH; assumption].
+    apply N.eqb_eq in E. exfalso. apply Hn. rewrite E. apply in_map. exact H.
+Qed.
+
+Lemma find_file_in : forall cm n f, find_file cm n = Ok f -> In f cm.
+Proof.
+  induction cm as [|g r IH]; intros n f H; cbn [find_file] in H; [discriminate|].
+  destruct (N.eqb (f_name g) n); [inversion H; left; reflexivity|right; eapply IH; exact H].
+Qed.
+
+Lemma flat_map_ext_in' : forall {A B} (f g : A -> list B) l, (forall x, In x l -> f x = g x) -> flat_map f l = flat_map g l.
+Proof.
+  induction l as [|x r IH]; intros H; [reflexivity|]. cbn [flat_map]. rewrite (H x (or_introl eq_refl)), IH; [reflexivity|].
+  intros; apply H; right; assumption.
+Qed.
+
+Lemma partition_by_key : forall (names : list N) (X : list emission),
+  NoDup names -> (forall e, In e X -> In (em_file e) names) ->
+  Permutation (flat_map (fun n => filter (fun e => N.eqb (em_file e) n) X) names) X.
+Proof.
+  induction names as [|n r IH]; intros X N H.
+  - destruct X as [|e X']; [constructor|]. exfalso. apply (H e). left. reflexivity.
+  - inversion N as [|? ? Hn Nr]; subst. cbn [flat_map].
+    set (X' := filter (fun e => negb (N.eqb (em_file e) n)) X).
+    assert (E : flat_map (fun n0 => filter (fun e => N.eqb (em_file e) n0) X) r =
+                flat_map (fun n0 => filter (fun e => N.eqb (em_file e) n0) X') r).
+    { apply flat_map_ext_in'. intros n0 Hn0. unfold X'. rewrite filter_filter. apply filter_ext. intros e.
+      destruct (N.eqb_spec (em_file e) n0) as [E0|E0]; [|rewrite andb_false_r; reflexivity].
+      rewrite andb_true_r. destruct (N.eqb_spec (em_file e) n) as [E1|E1]; [|reflexivity].
+      exfalso. apply Hn. rewrite <- E1, E0. exact Hn0. }
+    assert (P1 : Permutation (flat_map (fun n0 => filter (fun e => N.eqb (em_file e) n0) X') r) X').
+    { apply IH; [exact Nr|]. intros e He. unfold X' in He. apply filter_In in He. destruct He as [He Hk].
+      destruct (H e He) as [Hd|Hd]; [|exact Hd]. subst n. rewrite N.eqb_refl in Hk. discriminate. }
+    rewrite E. etransitivity; [apply Permutation_app_head; exact P1|].
+    unfold X'. clear. induction X as [|e X IHX]; [constructor|]. cbn [filter].
+    destruct (N.eqb (em_file e) n); cbn [negb app].
+    + constructor. exact IHX.
+    + symmetry. apply Permutation_cons_app. symmetry. exact IHX.
+Qed.
+
+Lemma flat_map_perm' : forall {A B} (f g : A -> list B) l, (forall x, In x l -> Permutation (f x) (g x)) -> Permutation (flat_map f l) (flat_map g l).
+Proof.
+  induction l as [|x r IH]; intros H; [constructor|]. cbn [flat_map]. apply Permutation_app; [apply H; left; reflexivity|].
+  apply IH. intros; apply H; right; assumption.
+Qed.
+
+Lemma flat_map_names : forall (X : list emission) (cm : code_map),
+  flat_map (fun f => filter (fun e => N.eqb (em_file e) (f_name f)) X) cm =
+  flat_map (fun n0 => filter (fun e => N.eqb (em_file e) n0) X) (map f_name cm).
+Proof. intros X cm. induction cm as [|g r IH]; [reflexivity|]. cbn [map flat_map]. rewrite IH. reflexivity. Qed.
+
+Lemma per_file_perm : forall cm segs es n cm0 l,
+  wf_emission segs es -> spans_ok cm es -> (0 < n)%nat ->
+  (forall f, In f cm0 -> find_file cm (f_name f) = Ok f) ->
+  Forall2 (fun f fr => bind (to_listing_file cm (map fst es) segs n f) (fun rows => Ok (f_name f, rows)) = Ok fr) cm0 l ->
+  Permutation (flat_map (fun fr => flat_map row_cells (snd fr)) l)
+              (flat_map (fun f => flat_map em_cells (filter (fun e => N.eqb (em_file e) (f_name f)) (emissions cm es))) cm0).
+Proof.
+  intros cm segs es n cm0 l W S Hn Hall H0. induction H0 as [|f fr cm' l' Hf H0 IH]; [constructor|].
+  cbn [flat_map]. apply Permutation_app.
+  - destruct (to_listing_file cm (map fst es) segs n f) as [rows|] eqn:E; [|discriminate]. cbn [bind] in Hf. inversion Hf; subst fr. cbn [snd].
+    eapply every_byte_once; try eassumption. apply Hall. left. reflexivity.
+  - apply IH. intros g Hg. apply Hall. right. exact Hg.
+Qed.
+
+(* every emitted byte appears in the listings (all files together) exactly once *)
+Theorem all_bytes_once : forall cm segs es n l,
+  wf_emission segs es -> spans_ok cm es -> (0 < n)%nat -> NoDup (map f_name cm) ->
+  to_listing cm (map fst es) segs n = Ok l ->
+  Permutation (flat_map (fun fr => flat_map row_cells (snd fr)) l) (flat_map em_cells (emissions cm es)).
+Proof.
+  intros cm segs es n l W S Hn N H. unfold to_listing in H. apply mapM_inv in H.
+  etransitivity.
+  { apply (per_file_perm cm segs es n cm l W S Hn); [intros; apply find_file_nodup; assumption|exact H]. }
+  rewrite <- (flat_map_flat_map em_cells (fun f => filter (fun e => N.eqb (em_file e) (f_name f)) (emissions cm es)) cm).
+  apply Permutation_flat_map.
+  rewrite flat_map_names.
+  apply partition_by_key; [exact N|].
+  intros e He. unfold emissions in He. apply in_map_iff in He. destruct He as [x [Hx Hi]]. subst e. cbn [emission_of em_file].
+  unfold spans_ok in S. rewrite Forall_forall in S. destruct (S x Hi) as [f [Hf _]].
+  pose proof (find_file_name _ _ _ Hf) as En. rewrite <- En. apply in_map. eapply find_file_in. exact Hf.
+Qed.
